@@ -176,6 +176,10 @@ theorem serGuarded_ctx (ctx : Ctx) (c c' : Caller) (v : View) (gi : Guard × Ite
   · cases i <;> simp only [Item.ref, ne_eq, not_true_eq_false, reduceCtorEq, not_false_eq_true] at h <;> rfl
   · rfl
 
+theorem ref_ne_of_mentions {r : AttrRef} {j : Guard × Item} (h : mentions r j = false) : j.2.ref ≠ r := by
+  simp only [mentions, Bool.or_eq_false_iff, beq_eq_false_iff_ne, ne_eq] at h
+  exact h.1
+
 /-- Equal rule hashes under two callers: the `name=value` run of the target's `pass_env` is the same. -/
 theorem C10_passenv_rehash (ctx : Ctx) (t : Target) (c c' : Caller) (l : List Bytes) (hl : t.passEnv = some l)
     (e : ruleSer F { ctx with environ := c } t = ruleSer F { ctx with environ := c' } t) :
@@ -195,10 +199,10 @@ theorem C10_passenv_rehash (ctx : Ctx) (t : Target) (c c' : Caller) (l : List By
   simp only [serView, List.flatMap_append, List.flatMap_cons] at e
   have e1 : pre.flatMap (serGuarded F { ctx with environ := c } (view F { ctx with environ := c' } t)) =
       pre.flatMap (serGuarded F { ctx with environ := c' } (view F { ctx with environ := c' } t)) :=
-    flatMap_congr_mem pre (fun j hj => serGuarded_ctx ctx c c' _ j (hp j hj))
+    flatMap_congr_mem pre (fun j hj => serGuarded_ctx ctx c c' _ j (ref_ne_of_mentions (hp j hj)))
   have e2 : post.flatMap (serGuarded F { ctx with environ := c } (view F { ctx with environ := c' } t)) =
       post.flatMap (serGuarded F { ctx with environ := c' } (view F { ctx with environ := c' } t)) :=
-    flatMap_congr_mem post (fun j hj => serGuarded_ctx ctx c c' _ j (hq j hj))
+    flatMap_congr_mem post (fun j hj => serGuarded_ctx ctx c c' _ j (ref_ne_of_mentions (hq j hj)))
   rw [e1, e2] at e
   have e3 := List.append_cancel_right (List.append_cancel_left e)
   obtain ⟨g, i⟩ := gi
